@@ -39,8 +39,8 @@ ASSUMPTIONS = [
     'is_hermitian of sparse matrices / numpy arrays is not covered here (numeric kernels); InteractionOperator is covered (Model tie + Spec oracle, no theorem)',
 ]
 OPEN_STATEMENTS = [
-    'commutes_with general path: proved in the exact regime (commutes_with_general_iff_partial: explicit decidable hypothesis that coefficients numpy.isclose calls close are equal) using Majorana canonicity (majorana_strings_independent); that the Model product mmul has the matrix elements of the product of the denoted operators is C01.mul_hom_majorana; outside the exact regime only the spec.eq oracle',
-    'is_hermitian: proved for FermionOperator (is_hermitian_fermion_iff: Hermitian in the Spec <=> the two normal-ordered dictionaries have equal coefficients; completeness of the coded test in the exact regime); also proved for QubitOperator (Pauli strings Hermitian and linearly independent: Hermitian <=> all coefficients real; coded test <=> every coefficient within tolerance of its conjugate); for InteractionOperator the soundness direction (coded test True => operator equals its formal adjoint in every CAR algebra, exact regime: is_hermitian_io_sound_partial), completeness by the oracle stream only; for BosonOperator / QuadOperator only the Model tie and the Spec oracle (InteractionOperator: non-symmetrised storage of Hermitian operators is generated on purpose); for QuadOperator the implementation is incomplete (known finding F02e)',
+    'commutes_with general path: proved in the exact regime (commutes_with_general_iff: the hypothesis is the decidable test majExactB that the driver evaluates per input and the harness counts; commutes_with_general_iff_partial keeps the abstract form) using Majorana canonicity (majorana_strings_independent); that the Model product mmul has the matrix elements of the product of the denoted operators is C01.mul_hom_majorana; outside the exact regime only the spec.eq oracle',
+    'is_hermitian: proved for FermionOperator (is_hermitian_fermion_iff: Hermitian in the Spec <=> the two normal-ordered dictionaries have equal coefficients; completeness of the coded test in the exact regime); also proved for QubitOperator (Pauli strings Hermitian and linearly independent: Hermitian <=> all coefficients real; coded test <=> every coefficient within tolerance of its conjugate); for InteractionOperator the soundness direction (coded test True => operator equals its formal adjoint in every CAR algebra, exact regime: is_hermitian_io_sound under the decidable per-input test ioExactB evaluated by the driver), completeness by the oracle stream only; for BosonOperator / QuadOperator only the Model tie and the Spec oracle (InteractionOperator: non-symmetrised storage of Hermitian operators is generated on purpose); for QuadOperator the implementation is incomplete (known finding F02e)',
     'float rounding inside abs()/hypot and tol*max(..) is outside the Model (guarded by the 1e-9 margin rule)',
 ]
 
@@ -504,6 +504,8 @@ def stream_commutes(ctx):
         m, o = ans[i], ans[len(cases) + i]
         if m['model'] != r:
             s.disagree('commutes_with', case, r, m['model'])
+        # the decidable exact-regime hypothesis of commutes_with_general_iff, evaluated per input
+        s.count('exact_regime(commutes_with_general_iff):%s' % m['exact_regime'])
         if o['eq'] != r:
             s.violate('commutes_with differs from [A,B]=0 in the Spec', case,
                       {'implementation': r, 'spec_commute': o['eq'], 'witness_state': o.get('state')})
@@ -1060,6 +1062,7 @@ def stream_hermitian_io(ctx):
         eq, m = ans[2 * i], ans[2 * i + 1]
         s.case(case)
         s.count('%s:impl=%s:spec=%s' % (case['kind'], r, eq['eq']))
+        s.count('exact_regime(is_hermitian_io_sound):%s' % m['exact_regime'])
         if m['model'] != r:
             s.disagree('is_hermitian(InteractionOperator)', case, r, m['model'])
         if [tuple(x) for x in m['hc_one']] != [tuple(x) for x in hc_one] or \
@@ -1419,6 +1422,33 @@ def stream_hardening(ctx):
         if ans[2 * i]['eq'] != r:
             s.violate('is_hermitian(InteractionOperator) (dtypes) differs from A = A^dagger in the Spec', case,
                       {'implementation': r, 'spec': ans[2 * i]['eq']})
+    # ---- numpy-integer mode indices inside the keys of .terms (hash / compare equal to Python ints)
+    for cls in ('fermion', 'qubit'):
+        C = cls_of(of, cls)
+        for _ in range(budget(ctx.tier, 40, 400)):
+            it = rng.choice([numpy.int64, numpy.int32, numpy.uint8])
+            pool = term_pool(rng, cls, rng.choice([1, 2, 3]), max_len=3, max_index=rng.choice([5, 200]))
+            tp = {t: rng.choice([1.0, -2.0, 0.5, 1j]) for t in pool}
+            tn = {tuple((it(i), a) for i, a in t): c for t, c in tp.items()}
+            a, b = mk(C, tp), mk(C, tn)
+            case = {'cls': cls, 'terms': enc_op(cls, tp), 'index_type': it.__name__}
+            try:
+                r = [a == b, b == a, b.isclose(a), not (a != b)]
+                g = (is_identity(a), is_identity(b))
+                if cls == 'fermion':
+                    g += (a.is_normal_ordered(), b.is_normal_ordered(), a.is_two_body_number_conserving(True),
+                          b.is_two_body_number_conserving(True))
+            except Exception as e:  # noqa
+                s.violate('comparison / predicate raised %s on numpy-integer indices' % type(e).__name__, case,
+                          {'error': repr(e)})
+                continue
+            s.case(case)
+            s.count('numpy-int-indices:%s:%s' % (cls, it.__name__))
+            if not all(bool(x) for x in r):
+                s.violate('operators whose keys differ only in the integer type of the indices compare unequal', case,
+                          {'answers': [bool(x) for x in r]})
+            if any(bool(g[2 * k]) != bool(g[2 * k + 1]) for k in range(len(g) // 2)):
+                s.violate('a predicate depends on the integer type of the indices', case, {'answers': [bool(x) for x in g]})
     # ---- predicates on terms with mode indices >= 257, before and after comparisons
     reqs, cases = [], []
     for cls in ('fermion', 'boson'):
